@@ -964,6 +964,361 @@ def check_result_sharing(ctx, t: ch.Tables):
                 ctx.broken.append(f"correspondence:result-sharing:{name}:{spec}:real={rnodes}:model={m_nodes}")
     ctx.note_batch("result-dedup-with-sharing", n, dis, exhaustive=False, graphs=len(twin_specs(ctx)))
 
+
+# --------------------------------------------------------------------------
+# single-edge replacement: a mapped child must end up in the result
+# --------------------------------------------------------------------------
+
+def edge_sig(label: str) -> str:
+    """edge label without positions / binding names: `csr:row_starts`, `operand:arrays`, `bind`, `index` …"""
+    p = label.split(":")
+    if p[0] in ("bind", "entry", "ret"):
+        return p[0]
+    return ":".join(x for x in p if not x.isdigit())
+
+
+def reflective_subst(root, subst: dict):
+    """`root` with every node whose id is in `subst` replaced — by reflection, never a mapper"""
+    memo: dict[int, Any] = {}
+
+    def cp(n):
+        if id(n) in subst:
+            return subst[id(n)]
+        if id(n) in memo:
+            return memo[id(n)]
+        new = n
+        for label, c in reflect.children(n, into_functions=True):
+            cc = cp(c)
+            if cc is not c:
+                new = probes.replace_child(new, label, cc)
+        memo[id(n)] = new
+        return new
+    return cp(root)
+
+
+def _same_structure(a, b) -> bool:
+    """reflective structural comparison (data wrappers: same buffer object and same fields — pytato's
+    `==` treats two rebuilt wrappers of one buffer as different)"""
+    from pytato.array import DataWrapper
+    seen: set[tuple[int, int]] = set()
+    st = [(a, b)]
+    while st:
+        x, y = st.pop()
+        if x is y or (id(x), id(y)) in seen:
+            continue
+        seen.add((id(x), id(y)))
+        if type(x) is not type(y):
+            return False
+        if isinstance(x, DataWrapper):
+            if x.data is not y.data or x.tags != y.tags or x.axes != y.axes or x.name != y.name:
+                return False
+        elif heapser.attr_key(x) != heapser.attr_key(y):
+            return False
+        cx = reflect.children(x, into_functions=True)
+        cy = reflect.children(y, into_functions=True)
+        if [lb for lb, _ in cx] != [lb for lb, _ in cy]:
+            return False
+        st += [(c1, c2) for (_, c1), (_, c2) in zip(cx, cy)]
+    return True
+
+
+def _replacement_for(child):
+    try:
+        return probes.fresh_like(child)
+    except TypeError:
+        return ch.different_from(child)
+
+
+def _substituting_runs(t: ch.Tables):
+    """(signature name, table row, run(graph, subst) -> result).  `subst`: id(old) -> new.
+    Every transform mapper CLASS of the table is subclassed so that `rec` returns the replacement for a
+    substituted node (what a user-written rewrite does); map_and_copy additionally the public way."""
+    import pytato.transform as ptf
+    runs = []
+
+    def by_subclass(make):
+        def run(graph, subst):
+            inst = make()
+            base = type(inst)
+
+            class Substituting(base):   # type: ignore[misc,valid-type]
+                def rec(self, expr, *a, **kw):
+                    r = subst.get(id(expr))
+                    return r if r is not None else super().rec(expr, *a, **kw)
+
+                def rec_function_definition(self, expr, *a, **kw):
+                    r = subst.get(id(expr))
+                    return r if r is not None else super().rec_function_definition(expr, *a, **kw)
+            Substituting.__name__ = base.__name__
+            inst.__class__ = Substituting
+            return inst(graph)
+        return run
+    for e in t.entries:
+        if e.transform and e.make is not None:
+            runs.append((e.name, e.name, by_subclass(e.make)))
+    runs.append(("CachedMapAndCopyMapper[map_fn]", "CachedMapAndCopyMapper",
+                 lambda g, subst: ptf.CachedMapAndCopyMapper(lambda x: subst.get(id(x), x))(g)))
+    runs.append(("map_and_copy", "CachedMapAndCopyMapper",
+                 lambda g, subst: ptf.map_and_copy(g, lambda x: subst.get(id(x), x))))
+    return runs
+
+
+def _edge_sets(labels: list[str]) -> list[tuple[str, ...]]:
+    sets = [(lb,) for lb in labels]
+    pairs = [(a, b) for i, a in enumerate(labels) for b in labels[i + 1:]]
+    return sets + pairs[:6]
+
+
+def replacement_case(t: ch.Tables, kinds_all: dict, name: str, row: str, run, kind: str, labels: tuple[str, ...]):
+    """one case -> None (fine) | ("skip", why) | ("violation", signature, what, details)"""
+    node = kinds_all[kind]
+    kids = dict(reflect.children(node, into_functions=True))
+    kclass = type(node).__name__
+    excl = set(ch.exclusions_for(t, row))
+    if any((kclass, probes.edge_class(lb)) in excl for lb in labels):
+        return ("skip", "edge class the mapper is known (table) not to follow")
+    try:
+        subst_objs = {lb: _replacement_for(kids[lb]) for lb in labels}
+    except TypeError:
+        return ("skip", "no replacement for this child")
+    if len({id(kids[lb]) for lb in labels}) != len(labels):
+        return ("skip", "edges share a child")
+    subst = {id(kids[lb]): subst_objs[lb] for lb in labels}
+    if name.endswith("[map_fn]") or name == "map_and_copy":
+        if any(probes.edge_class(lb) == "function" for lb in labels):
+            return ("skip", "map_fn is applied to arrays and containers, not to function definitions")
+    # what the result must be, by reflection: the substitution applied EVERYWHERE the child occurs
+    # (also validates that the replacement is admissible)
+    try:
+        expected = reflective_subst(node, subst)
+    except Exception as ex:    # noqa: BLE001
+        return ("skip", f"replacement not admissible: {type(ex).__name__}")
+    refused = ch.refused_kinds(t, row)
+    try:
+        with time_limit(TRAVERSAL_LIMIT_S):
+            res = run(node, subst)
+    except Exception as ex:    # noqa: BLE001
+        if type(ex).__name__ in refused.values():
+            return ("skip", "mapper refuses a kind of this probe")
+        return ("violation", f"mapper-raises:{name.split('[')[0]}:{type(ex).__name__}",
+                f"{name} raised {type(ex).__name__}: {str(ex)[:160]} when the child at {labels} of a {kclass} is replaced",
+                {"error": str(ex)[:300]})
+    got = dict(reflect.children(res, into_functions=True)) if reflect._is_node(res) else {}
+    problems = []
+    dropped = None
+    for lb, c in kids.items():
+        if lb in subst_objs:
+            if got.get(lb) is not subst_objs[lb]:
+                problems.append(f"edge {lb} points to {describe(got.get(lb), 0) if lb in got else 'nothing'} "
+                                f"{'(the OLD child)' if got.get(lb) is c else ''} instead of the replacement")
+                dropped = dropped or lb
+        elif got.get(lb) is not c and not any(id(x) in subst for x in reflect.walk(c, into_functions=True)):
+            problems.append(f"edge {lb}: an unchanged child was not kept as the same object")
+    still = [lb for lb in labels if any(x is kids[lb] for x in reflect.walk(res, into_functions=True))] \
+        if reflect._is_node(res) else list(labels)
+    if still:
+        problems.append(f"the replaced child of {still} is still reachable from the result")
+        dropped = dropped or still[0]
+    if not problems and not _same_structure(res, expected):
+        problems.append("the result differs structurally from the node rebuilt by reflection")
+    if problems:
+        lb = dropped or labels[0]
+        return ("violation", f"transform-drops-replaced-child:{name.split('[')[0]}:{kclass}:{edge_sig(lb)}",
+                f"{name}: replacing ONLY the child at {list(labels)} of a {kclass} node — " + "; ".join(problems)
+                + " (the mapped child was computed and discarded, or the node was not rebuilt)",
+                {"problems": problems})
+    return ("ok", res)
+
+
+def check_edge_replacement(ctx, t: ch.Tables):
+    """for every transform mapper, every node kind and every edge: replace exactly that child (then
+    pairs of children; first / middle / last for n-ary kinds) and look at the real result"""
+    kinds_all = dict(t.kinds)
+    kinds_all.update(probes.nary_probe_nodes())
+    runs = _substituting_runs(t)
+    n = dis = skipped = 0
+    queries, pend = [], []
+    for kind, node in kinds_all.items():
+        labels = [lb for lb, _ in reflect.children(node, into_functions=True)]
+        for name, row, run in runs:
+            for labs in _edge_sets(labels):
+                out = replacement_case(t, kinds_all, name, row, run, kind, labs)
+                if out[0] == "skip":
+                    skipped += 1
+                    continue
+                n += 1
+                if out[0] == "violation":
+                    dis += 1
+                    _, sig, what, details = out
+                    ctx.violation(sig, what, dict(details, check="edge-replacement", mapper=name, row=row,
+                                                  kind=kind, edges=list(labs),
+                                                  probe=describe(node)))
+                    continue
+                # number of distinct result nodes vs the Lean transform model with the substitution
+                res = out[1]
+                kids = dict(reflect.children(node, into_functions=True))
+                olds = [kids[lb] for lb in labs]
+                news = [c for lb, c in reflect.children(res, into_functions=True) if lb in labs]
+                v, idx = heapser.view_many([node] + news)
+                sub = " ".join(f"({v.index[id(o)]} {v.index[id(r_)]})" for o, r_ in zip(olds, news))
+                pend.append((name, kind, labs, len(heapser.view(res).nodes), len(queries)))
+                queries.append(f"(mapper transform {v.sexp()} {idx[0]} {heapser.excl(ch.exclusions_for(t, row))} "
+                               f"(subst ({sub})))")
+    answers = common.driver_query_parallel(queries)
+    for name, kind, labs, rnodes, qi in pend:
+        a = answers[qi]
+        if not a.startswith("ok "):
+            ctx.broken.append(f"driver:{a[:60]}")
+            continue
+        m_nodes = int(a[3:].split(" ", 4)[2])
+        if m_nodes != rnodes:
+            dis += 1
+            ctx.broken.append(f"correspondence:edge-replacement:{name}:{kind}:{labs}:real={rnodes}:model={m_nodes}")
+    ctx.note_batch("single-edge-replacement", n, dis, exhaustive=True, skipped=skipped,
+                   kinds=len(kinds_all), mappers=[r[0] for r in runs])
+
+
+# --------------------------------------------------------------------------
+# ladders through every edge class, counted at class level
+# --------------------------------------------------------------------------
+
+def _tree_size(v: heapser.HeapView) -> int:
+    paths = [0] * len(v.nodes)
+    for i in range(len(v.nodes)):
+        paths[i] = 1 + sum(paths[j] for _, _, j in v.edges[i])
+    return paths[v.root]
+
+
+def check_edge_ladders(ctx, t: ch.Tables):
+    """Reconverging ladders THROUGH each edge class (array-valued indices, bindings, stack / concatenate
+    operands, where-condition, symbolic shape components, call arguments, send payload / passthrough,
+    einsum arguments, remapping chains, CSR parts, containers): 2^depth paths, O(depth) nodes.  Every
+    traversal must stay within a LINEAR budget of per-node invocations, counted at class level:
+    `==` (EqualityComparer.rec / comparers created, patched on the class), every cached mapper of the
+    table (rec calls of all instances, incl. clones and freshly made ones), `deduplicate` of two equal
+    copies, and — under a wall-clock guard on depth-40 ladders — hash, pickle, persistent key, repr."""
+    import pickle
+
+    import pytato as pt
+    import pytato.transform as ptf
+    depths = (14,) if not ctx.thorough else (12, 14, 16)
+    entries = [e for e in t.entries if e.family in ("transform", "analysis") and e.cached
+               and not e.name.startswith("fn:")]
+    entries += [e for e in t.entries if e.name in ("fn:deduplicate", "fn:map_and_copy", "fn:get_num_nodes",
+                                                   "fn:collect_materialized_nodes", "fn:get_nusers")]
+    n = dis = 0
+    flagged: set[str] = set()
+
+    def flag(trav, cls, what, details):
+        nonlocal dis
+        dis += 1
+        sig = f"mapper-revisits:{trav}:{cls}"
+        if sig in flagged:
+            return
+        flagged.add(sig)
+        ctx.violation(sig, what, dict(details, check="edge-ladder", traversal=trav, edge_class=cls))
+
+    def both(cls, d):
+        return dags.edge_ladder(cls, d), dags.edge_ladder(cls, d)
+    for cls in dags.EDGE_LADDERS:
+        for d in depths:
+            g1, g2 = both(cls, d)
+            v = heapser.view(g1)
+            nn, tree = len(v.nodes), _tree_size(v)
+            spec = {"family": "edge_ladder", "edge_class": cls, "depth": d, "nodes": nn, "paths": tree}
+            # ---- == on two equal, distinct copies
+            n += 1
+            budget = 8 * nn + 50
+            try:
+                with ch.eq_counter(50 * nn + 500) as st, time_limit(TRAVERSAL_LIMIT_S):
+                    ok = g1 == g2
+            except (ch.BudgetExceeded, TraversalTimeout):
+                ok = None
+            if ok is None or st["rec"] > budget or st["comparers"] > budget:
+                flag("EqualityComparer", cls,
+                     f"`==` on two equal copies of a depth-{d} ladder through '{cls}' edges ({nn} nodes, {tree:.1e} paths): "
+                     f"{'aborted after ' if ok is None else ''}{st['rec']} EqualityComparer.rec calls by {st['comparers']} "
+                     f"comparers (class-level count; linear budget {budget}) — sub-comparisons behind this edge class are "
+                     f"not memoised across paths",
+                     {"graph": spec, "rec_calls": st["rec"], "comparers": st["comparers"], "budget": budget})
+            elif ok is not True:
+                ctx.broken.append(f"correspondence:edge-ladder:equal-copies-compare-unequal:{cls}")
+            # ---- deduplicate two equal copies (equality-keyed caches go through Array.__eq__ / __hash__)
+            n += 1
+            c1, c2 = both(cls, d)
+            dd = pt.make_dict_of_named_arrays({"a": c1, "b": c2}) if isinstance(c1, pt.Array) else \
+                pt.make_dict_of_named_arrays({**{f"a{k}": x for k, x in c1._data.items()},
+                                              **{f"b{k}": x for k, x in c2._data.items()}})
+            budget = 60 * nn + 500
+            try:
+                with ch.eq_counter(4 * budget) as st, time_limit(TRAVERSAL_LIMIT_S):
+                    res = ptf.deduplicate(dd)
+                fin = True
+            except (ch.BudgetExceeded, TraversalTimeout):
+                fin = False
+            except Exception as ex:    # noqa: BLE001
+                fin = True
+                ctx.broken.append(f"edge-ladder:deduplicate-raises:{cls}:{type(ex).__name__}")
+            if not fin or st["rec"] > budget:
+                flag("deduplicate", cls,
+                     f"deduplicate of two equal copies of a depth-{d} ladder through '{cls}' edges ({2 * nn} nodes): "
+                     f"{'aborted after ' if not fin else ''}{st['rec']} EqualityComparer.rec calls (class level; budget "
+                     f"{budget})",
+                     {"graph": spec, "rec_calls": st["rec"], "budget": budget})
+            # ---- every cached mapper of the table
+            kinds_present = {v.kind(i) for i in range(nn)}
+            for e in entries:
+                n += 1
+                budget = 20 * nn + 100
+                log = ch.CallLog(budget=4 * budget)
+                err = None
+                try:
+                    with ch.logging_to(log), ch.eq_counter(40 * nn + 500) as st, time_limit(TRAVERSAL_LIMIT_S):
+                        e.run(g1)
+                except (ch.BudgetExceeded, TraversalTimeout) as ex:
+                    err = ex
+                except Exception as ex:    # noqa: BLE001
+                    refused = ch.refused_kinds(t, e.name)
+                    if any(k in kinds_present for k in refused) and type(ex).__name__ in refused.values():
+                        continue
+                    dis += 1
+                    ctx.violation(f"mapper-raises:{ch.mapper_alias(t).get(e.name, e.name)}:{type(ex).__name__}",
+                                  f"{e.name} raised {type(ex).__name__}: {str(ex)[:160]} on a ladder through '{cls}' edges",
+                                  {"check": "edge-ladder", "graph": spec, "mapper": e.name})
+                    continue
+                multi = sum(1 for c in log.instance_calls.values() if c > 1)
+                if err is not None or len(log.pairs) > budget or multi or st["rec"] > budget:
+                    alias = ch.mapper_alias(t).get(e.name, e.name)
+                    flag(alias, cls,
+                         f"{e.name} on a depth-{d} ladder through '{cls}' edges ({nn} nodes, {tree:.1e} paths): "
+                         f"{'aborted after ' if err is not None else ''}{len(log.pairs)} rec calls over all instances "
+                         f"(budget {budget}), {multi} nodes visited more than once by one instance, {st['rec']} "
+                         f"EqualityComparer.rec calls — not linear in the number of nodes",
+                         {"graph": spec, "mapper": e.name, "rec_calls": len(log.pairs), "revisited": multi,
+                          "eq_rec_calls": st["rec"], "budget": budget})
+        # ---- wall-clock guard on a depth-40 ladder: hash, pickle, persistent key, repr
+        g = dags.edge_ladder(cls, 40)
+        spec = {"family": "edge_ladder", "edge_class": cls, "depth": 40}
+
+        def keyb(x):
+            from pytato.analysis import PytatoKeyBuilder
+            return PytatoKeyBuilder()(x)
+        for trav, fn in (("hash", hash), ("pickle", lambda x: pickle.loads(pickle.dumps(x))),
+                         ("PytatoKeyBuilder", keyb), ("Reprifier", repr)):
+            if f"mapper-revisits:{trav}:*" in flagged:
+                continue
+            n += 1
+            try:
+                with time_limit(5.0):
+                    fn(g)
+            except TraversalTimeout:
+                flag(trav, cls, f"{trav} of a depth-40 ladder through '{cls}' edges did not finish within 5 s "
+                                f"(2^40 paths: not per-node)", {"graph": spec})
+            except Exception:    # noqa: BLE001 - unsupported kinds are C18's / C04's subject
+                pass
+    ctx.note_batch("ladders-through-every-edge-class", n, dis, exhaustive=False,
+                   edge_classes=list(dags.EDGE_LADDERS), depths=list(depths), mappers=len(entries))
+
 # --------------------------------------------------------------------------
 
 def run(ctx: common.Ctx):
@@ -993,6 +1348,8 @@ def run(ctx: common.Ctx):
     check_pair_mappers(ctx)
     check_function_bodies(ctx, t)
     check_result_sharing(ctx, t)
+    check_edge_replacement(ctx, t)
+    check_edge_ladders(ctx, t)
     for th in THEOREMS[:4]:
         ctx.sample({"theorem": th})
     ctx.broken = sorted(set(ctx.broken))[:40]
@@ -1021,9 +1378,10 @@ def replay(ctx, path):
               f"nodes_with_method_calls={len(log.method_calls)} visited_more_than_once={multi}")
         print(f"expected: no error, {len(v.nodes)} or fewer nodes each visited exactly once")
         return 1 if (err is not None or multi) else 0
-    if r.get("check") in ("function-bodies", "result-sharing"):
+    if r.get("check") in ("function-bodies", "result-sharing", "edge-replacement", "edge-ladder"):
         sub = common.Ctx(prop=ctx.prop, tier=ctx.tier, seed=ctx.seed)
-        (check_function_bodies if r["check"] == "function-bodies" else check_result_sharing)(sub, t)
+        {"function-bodies": check_function_bodies, "result-sharing": check_result_sharing,
+         "edge-replacement": check_edge_replacement, "edge-ladder": check_edge_ladders}[r["check"]](sub, t)
         hits = [v_ for v_ in sub.violations if v_["signature"] == r.get("signature")] + \
             ([r["signature"]] if r.get("signature") in sub.known_hit else [])
         print("observed on the current tree:", "still violated" if hits else "no longer violated")
